@@ -438,7 +438,54 @@ def _pert_class(what: str) -> str:
     return _re.sub(r"'[^']*'|#\d+|to \w+", "*", what)
 
 
+def rule_ctor(ctx):
+    """Equality is about what a message was built from: every named constructor argument (message and part classes) is
+    kept by the constructor - on every path on which construction succeeds - in a form that reaches the rendering that
+    __eq__ compares.  A constructor that drops or replaces an argument under some condition makes two different messages
+    equal."""
+    p = ctx.p
+    classes = concrete_message_classes(p) + concrete_part_classes(p)
+    n = 0
+    for ci in classes:
+        kw = {k: (v if k == "children" else Term("param", f"arg.{k}", pytype="str")) for k, v in full_kwargs(p, ci).items()}
+        names = [k for k in kw if k != "children"]
+        try:
+            res = abstract_construct(p, ci, kw, inline_prefixes=("indi.message.", "indi.message.checks."))
+        except Undecided as u:
+            ctx.undecided("C20.CTOR", ci.short, str(u), ci=ci)
+            continue
+        init = ci.find_method("__init__")
+        bad = False
+        okpaths = 0
+        for pa, o in res:
+            if pa.outcome != "return" or not isinstance(o, Obj):
+                continue
+            okpaths += 1
+            try:
+                f, rpaths = _render(ctx, o)
+            except Undecided as u:
+                ctx.undecided("C20.CTOR", ci.short, str(u), ci=ci)
+                bad = True
+                break
+            for rp in rpaths:
+                if rp.outcome != "return" or not isinstance(rp.value, Dct):
+                    continue
+                for k in names:
+                    n += 1
+                    s = kw[k]
+                    if not any(_has(vv, s) for _, vv in rp.value.pairs):
+                        conds = [show(a.data["cond"])[:60] for a in pa.assumes() if a.data["truth"]][:3]
+                        ctx.violated("C20.CTOR", f"{(init or f).short}[{ci.name}]", f"constructor argument '{k}' of {ci.name} does not reach the compared rendering on a path on which construction succeeds (assumed: {conds}): two {ci.name} built with different '{k}' compare equal", fi=init or f, text=f"{ci.name}.{k}", witness=f"{ci.name}({k}=x) == {ci.name}({k}=y) under {conds}")
+                        bad = True
+        if okpaths == 0:
+            ctx.undecided("C20.CTOR", ci.short, "no successful construction path explored", ci=ci)
+        elif not bad:
+            ctx.holds("C20.CTOR", ci.short, f"all {len(names)} named arguments reach the rendering on {okpaths} construction path(s)", ci=ci)
+    ctx.floor("C20.CTOR", "argument x path evaluations", n, 150)
+
+
 RULES = [
+    ("C20.CTOR", rule_ctor, "every named constructor argument reaches the compared rendering on every successful construction path"),
     ("C20.EQ", rule_eq, "__eq__ abstractly evaluated on the perturbation table: copies equal, every single-point perturbation unequal"),
     ("C20.RETAIN", rule_retain, "to_dict retains every attribute under its key, the text, and all children as an ordered 1:1 sequence"),
 ]
